@@ -17,6 +17,7 @@ pub mod c12;
 pub mod c13;
 pub mod pipe;
 pub mod c14;
+pub mod c15;
 pub mod c16;
 pub mod c17;
 pub mod c18;
@@ -47,5 +48,5 @@ pub const COMMON_ASSUMPTIONS: [&str; 4] = [
 ];
 
 pub fn registry() -> Vec<Prop> {
-    vec![c01::prop(), c02::prop(), c03::prop(), c05::prop(), c06::prop(), c07::prop(), c08::prop(), c09::prop(), c10::prop(), c11::prop(), c12::prop(), c13::prop(), c14::prop(), c16::prop(), c17::prop(), c18::prop(), c19::prop(), c20::prop()]
+    vec![c01::prop(), c02::prop(), c03::prop(), c05::prop(), c06::prop(), c07::prop(), c08::prop(), c09::prop(), c10::prop(), c11::prop(), c12::prop(), c13::prop(), c14::prop(), c15::prop(), c16::prop(), c17::prop(), c18::prop(), c19::prop(), c20::prop()]
 }
